@@ -747,6 +747,9 @@ def judge(doc, expr, source, rep):
         eq_exact = len(ref_pairs) == len(lib_pairs) and all(a[0] == b[0] and same(a[1], b[1]) for a, b in zip(lib_pairs, ref_pairs))
         eq_multi = eq_exact or keyed(ref_pairs) == keyed(lib_pairs)
         ok = eq_multi if multiset else eq_exact
+        if re.search(r"""['"]-?\d+['"]""", expr):
+            # a quoted name made of digits: jsoncons (by design) lets it index an array, RFC 9535 applies names to objects only
+            notes = set(notes) | {"digits-only-quoted-name"}
         if notes or not judged_source:
             tag = ",".join(sorted(notes)) if notes else "mutated-expression"
             counts.append("reference_not_judged.%s" % tag)
